@@ -3,13 +3,14 @@ module github.com/formancehq/ledger/verifharness
 go 1.20
 
 require (
+	github.com/ThreeDotsLabs/watermill v1.2.0
 	github.com/formancehq/ledger v0.0.0
 	github.com/formancehq/stack/libs/go-libs v0.0.0-20230517212829-71aaaacfd130
+	github.com/sirupsen/logrus v1.9.3
 )
 
 require (
 	github.com/Shopify/sarama v1.38.1 // indirect
-	github.com/ThreeDotsLabs/watermill v1.2.0 // indirect
 	github.com/ThreeDotsLabs/watermill-http v1.1.4 // indirect
 	github.com/ThreeDotsLabs/watermill-kafka/v2 v2.2.2 // indirect
 	github.com/ThreeDotsLabs/watermill-nats/v2 v2.0.0 // indirect
@@ -53,7 +54,6 @@ require (
 	github.com/pierrec/lz4/v4 v4.1.17 // indirect
 	github.com/pkg/errors v0.9.1 // indirect
 	github.com/rcrowley/go-metrics v0.0.0-20201227073835-cf1acfcdf475 // indirect
-	github.com/sirupsen/logrus v1.9.3 // indirect
 	github.com/spf13/afero v1.9.3 // indirect
 	github.com/spf13/cast v1.5.0 // indirect
 	github.com/spf13/cobra v1.6.1 // indirect
